@@ -127,7 +127,7 @@ def random_config(rng, max_w=16, max_h=8):
         if rng.random() < 0.12:
             # a payload longer than the usual I/O buffer sizes (4 KiB, 8 KiB):
             # whatever a reader buffers, a value then straddles a refill
-            cfg["extras"][-1][2] = rng.choice([4083, 4096, 4097, 4200, 8179, 8192, 8300])
+            cfg["extras"][-1][2] = rng.choice([4083, 4096, 4097, 4200, 8179, 8192, 8300, 4200, 8300, 65300, 65536, 66000])
     else:
         cfg["extras"] = None
     if rng.random() < (0.45 if asym and depth_ho > 0 else 0.3):
@@ -405,6 +405,22 @@ def minimal_config():
         wavelet=4, wavelet_ho=4, depth=1, depth_ho=0, sx=2, sy=1, frag=0, lossless=False, picture_bytes=24,
         qm=None, npics=1, pic_kind="noise", pic_seed=1, first_pic_num=None, nseq=1, extras=None, mix=None, color=None,
     )
+
+
+def wide_configs():
+    """A handful of extreme-aspect configurations (one very long row / one very
+    long column, shallow and very deep samples, flat pictures so that streams
+    stay small): sizes and counts beyond what the tiny formats reach — a row of
+    more than 256 KiB, more than 2^14 rows — within the area bound."""
+    out = []
+    for (w, h, bits, profile, frag) in [(16400, 1, 70, 3, 0), (32000, 1, 40, 3, 0), (16400, 1, 8, 0, 0), (1, 16400, 65, 3, 0), (2, 8200, 10, 3, 3), (20000, 1, 65, 3, 2)]:
+        exc = (1 << bits) - 1
+        out.append(OrderedDict(
+            profile=profile, level=0, pcm=0, w=w, h=h, cdf=0, luma_exc=exc, luma_off=0, cd_exc=exc, cd_off=(exc + 1) // 2,
+            wavelet=4, wavelet_ho=4, depth=1, depth_ho=0, sx=2 if w > 1 else 1, sy=1, frag=frag, lossless=(profile == 3), picture_bytes=(None if profile == 3 else 64),
+            qm=None, npics=2, pic_kind="mid", pic_seed=7, first_pic_num=None, nseq=1, extras=None, mix=None, color=None,
+        ))
+    return out
 
 
 _POOLS = {}
